@@ -334,27 +334,47 @@ class World(object):
                     self.errors.append(msg)
 
     # -- observation ---------------------------------------------------------
+    @staticmethod
+    def _attr(obj, name, pred):
+        """the private attribute `name` of obj - or, when a maintenance commit has renamed it, the one attribute of obj that
+        satisfies pred (the observation must not depend on how private names are spelled)"""
+        d = vars(obj)
+        if name in d:
+            return d[name]
+        hits = [v for v in d.values() if pred(v)]
+        if len(hits) != 1:
+            raise AttributeError('cannot identify the attribute formerly called %s on %s (%d candidates)'
+                                 % (name, type(obj).__name__, len(hits)))
+        return hits[0]
+
     def observe(self):
         p = self.pool
+        host_pools = p.host_pools
+        waiters = self._attr(p, '_host_pool_waiters', lambda v: isinstance(v, dict) and v is not host_pools and
+                             all(isinstance(x, int) for x in v.values()))
+        release_tasks = self._attr(p, '_release_tasks', lambda v: isinstance(v, (set, frozenset)))
+        hp_lock = self._attr(p, '_host_pools_lock', lambda v: isinstance(v, asyncio.Lock))
         pools = []
         for k, key in enumerate(self.keys):
-            hp = p._host_pools.get(key)
+            hp = host_pools.get(key)
             if hp is None:
                 pools.append(None)
                 continue
+            cond = self._attr(hp, '_condition', lambda v: isinstance(v, asyncio.Condition))
+            lock = self._attr(hp, '_lock', lambda v: isinstance(v, asyncio.Lock))
             cw = []
-            for fut in hp._condition._waiters:
+            for fut in cond._waiters:
                 cw.append('c' if fut.cancelled() else ('n' if fut.done() else 'p'))
             lq = []
-            for fut in (hp._lock._waiters or ()):
+            for fut in (lock._waiters or ()):
                 lq.append('c' if fut.cancelled() else ('w' if fut.done() else 'p'))
             pools.append({'ready': sorted(c.cid for c in hp.ready), 'busy': sorted(c.cid for c in hp.busy),
-                          'waiters': p._host_pool_waiters.get(key), 'locked': hp._lock.locked(),
+                          'waiters': waiters.get(key), 'locked': lock.locked(),
                           'lockq': lq, 'cond': cw})
         hq = []
-        for fut in (p._host_pools_lock._waiters or ()):
+        for fut in (hp_lock._waiters or ()):
             hq.append('c' if fut.cancelled() else ('w' if fut.done() else 'p'))
-        rel = sorted(self.task_name[t][1] for t in p._release_tasks)
+        rel = sorted(self.task_name[t][1] for t in release_tasks)
         live_rel = sorted(j for t, (kind, j) in self.task_name.items() if kind == 'r' and not t.done())
         return {'pools': pools, 'hp_locked': p._host_pools_lock.locked(), 'hp_q': hq,
                 'release_set': rel, 'live_tasks': live_rel,
